@@ -38,58 +38,34 @@ func (c *Check) notificationEncode(rule string) {
 		ok := len(a.Returns) > 0
 		detail := "every path appends n.Data to the body handed to prependHeader"
 		for _, r := range a.Returns {
-			if w.app {
-				// the buffer passed to prependHeader must be append(body, n.Data...)
-				res := r.Results[0]
-				okA := false
-				if res.Op == "rcall" && res.S == "prependHeader" && len(res.Args) >= 2 {
-					buf := res.Args[1]
-					if buf.Op == "append" && isFieldRead(buf.Args[1], "Data") {
-						okA = true
-					}
-				}
-				if !okA {
-					ok = false
-					detail = "with non-empty data the encoded body is " + trunc(res.Key, 120)
-				}
-			}
-			// code and subcode octets
 			st := r.State
 			res := r.Results[0]
-			if res.Op == "rcall" && res.S == "prependHeader" && len(res.Args) >= 2 {
-				buf := res.Args[1]
-				if buf.Op == "append" {
-					buf = buf.Args[0]
-				}
-				root, _, _ := sliceParts(buf)
-				b0, b1 := false, false
-				for k, v := range st.mem {
-					me := st.memE[k]
-					if me == nil || me.Op != "ia" || me.Args[0].Key != root.Key {
-						continue
-					}
-					if i, isC := me.Args[1].IsConst(); isC {
-						if i == 0 && isFieldRead(v, "Code") {
-							b0 = true
-						}
-						if i == 1 && isFieldRead(v, "Subcode") {
-							b1 = true
-						}
-					}
-				}
-				okL := b0 && b1 && root.Op == "arr" && root.C == 2
-				if !okL {
-					ok = false
-					detail = "body must start with Code at octet 0 and Subcode at octet 1 of a 2-octet prefix"
-				}
-				// message type constant
-				if tv, isC := res.Args[2].IsConst(); !isC || tv != p.MustConst("notificationMessageType") {
-					ok = false
-					detail = "prependHeader type argument is not notificationMessageType"
-				}
-			} else {
+			if !(res.Op == "rcall" && res.S == "prependHeader" && len(res.Args) >= 3) {
 				ok = false
 				detail = "result is not prependHeader(body, type): " + trunc(res.Key, 80)
+				continue
+			}
+			lay, lerr := st.layoutOf(res.Args[1], 0)
+			if lerr != "" {
+				ok = false
+				detail = "body construction not understood: " + lerr
+				continue
+			}
+			pats := []segPat{
+				{Kind: "byte", Pred: func(v *Expr) bool { return isFieldRead(v, "Code") }, What: "byte(Code)"},
+				{Kind: "byte", Pred: func(v *Expr) bool { return isFieldRead(v, "Subcode") }, What: "byte(Subcode)"},
+			}
+			if w.app {
+				pats = append(pats, segPat{Kind: "bytes", Pred: func(v *Expr) bool { return isFieldRead(v, "Data") }, What: "all of Data"})
+			}
+			if okL, d := matchLayout(lay, pats); !okL {
+				ok = false
+				detail = "body must be Code, Subcode" + map[bool]string{true: ", Data", false: ""}[w.app] + ": " + d
+			}
+			// message type constant
+			if tv, isC := res.Args[2].IsConst(); !isC || tv != p.MustConst("notificationMessageType") {
+				ok = false
+				detail = "prependHeader type argument is not notificationMessageType"
 			}
 		}
 		c.require(ok, rule, "Notification.encode", w.name, p.Pos(fn.Pos()), detail)
